@@ -709,6 +709,66 @@ func RunExitSqueeze(idle time.Duration) *vstat.Violation {
 // arrives right behind that computation" through the package lock: the worker is first parked inside a callback the
 // harness owns, then released while the harness holds the lock, so that it queues for its next critical section with
 // the new Call queued right behind it. The near future must start within the bound (the poke must not be lost).
+// RunBargeSqueeze: surplus workers (the pool grew during a burst) reach their decision to leave while `calls` Calls have
+// queued on the package lock ahead of them - nobody is parked on the wake channel meanwhile, so the Calls' wake-up tokens pile
+// up. Afterwards the package must still work: a Call returns at once and its function is started.
+func RunBargeSqueeze(idle time.Duration, workers, calls int) *vstat.Violation {
+	return vstat.Guard("timers:panic", func() *vstat.Violation {
+		resetPool(10, idle)
+		far := timeout.Call(func() {}, 600*time.Second) // the queue is never empty: leaving workers take the "head not due" path
+		var ran atomic.Int32
+		var last atomic.Int64
+		for i := 0; i < workers; i++ {
+			timeout.Call(func() { time.Sleep(2 * time.Millisecond); last.Store(time.Now().UnixNano()); ran.Add(1) }, 0)
+		}
+		for t := time.Now(); int(ran.Load()) < workers; time.Sleep(100 * time.Microsecond) {
+			if time.Since(t) > latenessBound {
+				far.Cancel()
+				return vstat.V("timers:never-started", "a burst of %d futures due at once was not started within %v", workers, latenessBound)
+			}
+		}
+		end := time.Unix(0, last.Load())
+		// the workers sleep one idle timeout, find nothing, sleep another one and then decide to leave
+		time.Sleep(time.Until(end.Add(2*idle - idle/3)))
+		old := runtime.GOMAXPROCS(1)
+		var futs []timeout.Future
+		var fmu sync.Mutex
+		withPoolLock(func() {
+			for i := 0; i < calls; i++ {
+				go func() {
+					f := timeout.Call(func() {}, time.Hour)
+					fmu.Lock()
+					futs = append(futs, f)
+					fmu.Unlock()
+				}()
+			}
+			time.Sleep(time.Until(end.Add(2*idle + idle/3 + 4*time.Millisecond))) // the workers' timers fire: they queue behind the Calls
+		})
+		runtime.GOMAXPROCS(old)
+		var got atomic.Bool
+		returned := make(chan struct{})
+		go func() { timeout.Call(func() { got.Store(true) }, 0); close(returned) }()
+		select {
+		case <-returned:
+		case <-time.After(latenessBound):
+			abandonPool(10, idle) // whoever holds the package lock keeps it: start over on a fresh control block
+			return vstat.V("timers:call-blocked", "%d Calls queued on the package lock ahead of %d surplus workers that were about to leave; afterwards a Call did not RETURN within %v: the package lock is held for ever", calls, workers-1, latenessBound)
+		}
+		for t := time.Now(); !got.Load(); time.Sleep(100 * time.Microsecond) {
+			if time.Since(t) > latenessBound {
+				return vstat.V("timers:never-started", "%d Calls queued on the package lock ahead of %d surplus workers that were about to leave; a Call due at once afterwards was not started within %v (pending=%d workers=%d)", calls, workers-1, latenessBound, pending(), poolWorkers())
+			}
+		}
+		far.Cancel()
+		fmu.Lock()
+		for _, f := range futs {
+			f.Cancel()
+		}
+		fmu.Unlock()
+		return nil
+	})
+}
+
 func RunPokeSqueeze() *vstat.Violation {
 	return vstat.Guard("timers:panic", func() *vstat.Violation {
 		resetPool(10, 30*time.Second)
